@@ -23,15 +23,17 @@ META = {
         "exactly records k..j in order for some j covering every record complete when the call began, never a partial record, and afterwards "
         "every cached offset equals the true byte offset. (b) Lock protocol (bounded model checking): the call-site automaton of the real "
         "append_logs with either lock class is extracted from the source on every run (scripted os/time/open whose outcomes are explorer forks; "
-        "quotient by (call, call site, last stat outcome), rejected on any nondeterministic merge), K copies are composed in z3 with a "
+        "stat().st_mtime results are opaque objects whose comparisons are environment events; quotient by (call, call site, which earlier stat "
+        "results the code still keeps in local variables), rejected on any nondeterministic merge), K copies are composed in z3 with a "
         "file-system/clock model (bit-vector BMC over macro steps, interleaving = symbolic schedule vector) and z3 proves for all schedules "
         "up to the depth: never two processes hold the lock at once, release() never raises, no process leaves the extracted automaton; a "
         "reachability witness (everybody finishes) must be sat. Satisfying schedules are replayed on the real code (threads stepped through "
         "an in-memory file system)."
     ),
     "assumptions": [
-        "operating assumption of the lease-style lock: a live holder releases within hold_bound (10 s) of creating its lock file and a process inside "
-        "append_logs is never suspended longer than step_delay (5-10 s) between two consecutive shared file-system calls; grace_period = 30 s; "
+        "operating assumption of the lease-style lock: a live holder releases within hold_bound of creating its lock file (10 s in the k2/k2r2/k3 "
+        "obligations, the whole grace period of 30 s in the longhold obligations) and a process inside append_logs that does not hold the lock is "
+        "never suspended longer than step_delay (5-10 s) between two consecutive shared file-system calls; grace_period = 30 s; "
         "clock reads that follow a shared call happen within the same model tick (5 s)",
         "POSIX semantics of symlink / open(O_CREAT|O_EXCL) (atomic, EEXIST), rename (atomic, ENOENT), stat().st_mtime identifies the lock instance",
         "a proper fragment of a record line is never valid JSON; appends are whole records (established by (b)) plus at most one in-flight record",
@@ -245,6 +247,9 @@ def setup_reader(concrete):
 
 
 # ---------------------------------------------------------------------------------------------- (b) lock protocol BMC
+GRACE_TICKS = 6        # envsum.lockbmc.GRACE // TICK
+
+
 def make_bmc(lock_cls, K, depth, rounds, step_delay, hold_bound, crash=False, expect_sat=()):
     def run():
         from envsum import lockbmc as L
@@ -318,6 +323,14 @@ def obligations(tier):
         obs.append(Obligation(f"lock-bmc-{short}-k2r2", None, None, CODE, custom=make_bmc(cls, 2, 14 if q else 16, 2, 1, 2),
                               bounds=dict(processes=2, rounds=2, macro_steps=14 if q else 16, step_delay_s=5, hold_bound_s=10),
                               describe=f"{cls}: 2 processes x 2 appends (re-acquisition while the other waits)"))
+        obs.append(Obligation(f"lock-bmc-{short}-longhold", None, None, CODE, custom=make_bmc(cls, 2, 16, 2, 1, GRACE_TICKS),
+                              bounds=dict(processes=2, rounds=2, macro_steps=16, step_delay_s=5, hold_bound_s=30),
+                              describe=f"{cls}: a holder may keep the lock for the whole grace period (30 s) and hand it over at the last moment while "
+                                       "the other process has been waiting all along"))
+        if not q:
+            obs.append(Obligation(f"lock-bmc-{short}-longhold-k3", None, None, CODE, custom=make_bmc(cls, 3, 16, 1, 1, GRACE_TICKS),
+                                  bounds=dict(processes=3, rounds=1, macro_steps=16, step_delay_s=5, hold_bound_s=30),
+                                  describe=f"{cls}: long hold, hand-over to a third process"))
         obs.append(Obligation(f"lock-bmc-{short}-k3", None, None, CODE, custom=make_bmc(cls, 3, 12 if q else 14, 1, 1, 2),
                               bounds=dict(processes=3, rounds=1, macro_steps=12 if q else 14, step_delay_s=5, hold_bound_s=10),
                               describe=f"{cls}: 3 processes x 1 append"))
